@@ -54,11 +54,14 @@ def pat_text(draw, text_mode):
     if text_mode:
         atoms += ['é', 'É']
     quant = ['', '', '', '+', '*', '?', '{2}']
-    kind = draw(st.integers(0, 9))
+    kind = draw(st.integers(0, 20))
+    if kind == 20:
+        return ''               # the empty pattern: matches at once, in every form
 
     def seq(nmax=3):
         return ''.join(draw(st.sampled_from(atoms)) + draw(st.sampled_from(quant))
                        for _ in range(draw(st.integers(1, nmax))))
+    kind = kind % 10
     if kind <= 4:
         p = seq()
     elif kind == 5:
